@@ -79,7 +79,7 @@ def perl(d, script, args):
 def scenario(rng, sid):
     d = tempfile.mkdtemp(prefix="c19_", dir=os.environ.get("VERIF_TMP", os.path.join(VERIF, ".cache", "tmp")))
     try:
-        what = rng.choice(["ibi", "ibi", "binv", "linop", "scale", "shift", "smooth", "integrate", "combine"])
+        what = rng.choice(["ibi", "ibi", "binv", "linop", "scale", "shift", "smooth", "integrate", "combine", "extrap", "extrap"])
         n = rng.choice([3, 4, 5, 8, 13, 30, 60])
         xs = grid(rng, n)
         flags = [rng.choice("iiiiou") for _ in range(n)]
@@ -139,6 +139,32 @@ def scenario(rng, sid):
             write_table(os.path.join(d, "in"), xs, ys, flags)
             rc = perl(d, "table_integrate.pl", ["--from", frm, "in", "out"])
             line = "%s %s %d %s" % (head, frm, n, " ".join("%s %s %s" % (me(xs[i]), me(ys[i]), flags[i]) for i in range(n)))
+        elif what == "extrap":
+            fn = rng.choice(["constant", "linear", "quadratic", "quadratic", "sasha", "periodic", "exponential"])
+            region = rng.choice(["left", "right", "leftright", "leftright"])
+            avg = rng.choice([1, 2, 3, 3, 5])
+            curv = rng.choice([10000.0, 10000.0, 50.0, -3.0])
+            fu = rng.random() < 0.8
+            n = max(n, 2 * avg + 6)
+            xs = grid(rng, n)
+            pre, suf = rng.randint(0, 4), rng.randint(0, 4)
+            while n - pre - suf < avg + 3:
+                n += 1
+            xs = grid(rng, n)
+            flags = [rng.choice("ou") for _ in range(pre)] + ["i"] * (n - pre - suf) + [rng.choice("ou") for _ in range(suf)]
+            if rng.random() < 0.15 and n - pre - suf > 2:
+                flags[pre + 1 + rng.randrange(n - pre - suf - 2)] = "o"      # an out-of-range point inside
+            ys = [num(rng, "pot") for _ in range(n)]
+            if fn in ("sasha", "exponential") and rng.random() < 0.9:
+                ys = [abs(y) + 0.5 for y in ys]                               # the usual case: positive repulsive wall
+            write_table(os.path.join(d, "in"), xs, ys, flags)
+            args = ["--function", fn, "--region", region, "--avgpoints", str(avg)]
+            if fn == "quadratic":
+                args += ["--curvature", repr(curv)]
+            if not fu:
+                args.append("--no-flagupdate")
+            rc = perl(d, "table_extrapolate.pl", args + ["in", "out"])
+            line = "%s %s %s %d %d %s %d %s" % (head, fn, region, int(fu), avg, me(curv), n, " ".join("%s %s %s" % (me(xs[i]), me(ys[i]), flags[i]) for i in range(n)))
         else:
             op = rng.choice(["+", "-", "x", "d"])
             ys = [num(rng, "pot") for _ in range(n)]
